@@ -448,6 +448,53 @@ def run(tier="quick", replay=None):
                     "missing from the dependency listing although it is read" % (f.path, lent[0][1]), fn=f.path)
     R.floor("R18.e", "locally created include vectors lent to recorders", nlocal, 1)
 
+    # ---------------- R18.f nested programs hand their include lists up ------------------------------
+    # `frontend` is re-entered for a `(mod ..)` nested in an expression (call-graph cycle frontend -> compile_bodyform ->
+    # frontend).  The inner call records the files it reads in the INNER CompileForm's include_forms; the listing reads
+    # only the outermost one.  Unless some function reachable from frontend copies a CompileForm's include_forms into an
+    # include vector (extend / append / push), files included by nested mods are read but never listed (found F28).
+    FE = "compiler::frontend::frontend"
+    fe_fn = prog.fn(FE)
+    if fe_fn is None:
+        R.viol("R18.f", "R18.f|anchor-lost|frontend", "compiler::frontend", "anchor lost: compiler::frontend::frontend")
+    else:
+        reach = prog.reachable_fns([FE])
+        reentered = any(callee_of(t) == FE for p_ in reach if p_ != FE and prog.fn(p_) is not None for _, t in prog.fn(p_).calls())
+        if not reentered:
+            R.ob("R18.f", "R18.f|frontend-not-reentered", "%s:%s" % (fe_fn.file, fe_fn.line),
+                 "auto: frontend is not called from anything it reaches (no nested programs with include lists of their own)")
+        else:
+            merges = []
+            for p_ in sorted(reach):
+                g = prog.fn(p_)
+                if g is None:
+                    continue
+                gfl = None
+                for bb, t in g.calls():
+                    c = callee_of(t) or ""
+                    nm = c.rsplit("::", 1)[-1]
+                    if nm not in ("extend", "append", "push", "extend_from_slice") or "Vec" not in c:
+                        continue
+                    if DESC not in " ".join(t.get("gargs") or []) + " ".join(t.get("arg_tys") or []):
+                        continue
+                    gfl = gfl or Flow(g)
+                    for a in t["args"][1:]:
+                        al = op_local(a)
+                        if al is None:
+                            continue
+                        sl = gfl.back_pure([al])
+                        for _, _, st in g.stmts():
+                            if gfl.node(st["pl"]) in sl:
+                                for o in rv_operands(st["rv"]):
+                                    pl = op_place(o)
+                                    if pl and any(isinstance(e, dict) and e.get("f") == "include_forms" for e in pl["p"]):
+                                        merges.append("%s at %s" % (g.path, g.loc(bb)))
+            R.check(bool(merges), "R18.f", "R18.f|nested-include-lists-merged", "%s:%s" % (fe_fn.file, fe_fn.line),
+                    "auto: the include list of a nested program is copied into an include vector (%s)" % ", ".join(sorted(set(merges))[:2]),
+                    "frontend is re-entered for nested (mod ..) forms, but nothing reachable from it copies a CompileForm's include_forms "
+                    "into an include vector: a file included by a nested mod is read by the compiler and missing from the dependency "
+                    "listing", fn=FE)
+
     # ---------------- R18.a.store the resolver searches the path it was given -------------------------
     # `set_search_paths` is the single place where the -i list becomes the resolver's include_dirs (R18.a.first shows that
     # the resolver walks include_dirs front to back and R11.f that every entry point hands the list over untouched).  It
